@@ -397,44 +397,47 @@ def tiff_subimage(rep, fns):
         if not f["name"].endswith("reader::read_tiled_data_subimage") or done:
             continue
         done = True
-        decl = {}
-        for d, _ in R.find(f["body"], lambda x: x.get("k") == "Decl"):
-            for dd in d["decls"]:
-                if dd.get("name") and dd.get("init") is not None:
-                    decl[dd["name"]] = R.key(dd["init"])
         rep.count("obligations:S8b")
-        want_c = {"tile_top_left": "point{x,y}", "view_top_left": "point{subimage_x,subimage_y}"}
-        lr_t, lr_v = decl.get("tile_lower_right", ""), decl.get("view_lower_right", "")
-        incl = lr_t.replace(" ", "") == "point_t{((x+current_tile_width)-1),((y+current_tile_length)-1)}" and \
-            lr_v.replace(" ", "") == "point_t{((subimage_x+subimage_width)-1),((subimage_y+subimage_height)-1)}" and \
-            decl.get("tile_top_left", "").replace(" ", "") == "point_t{x,y}" and decl.get("view_top_left", "").replace(" ", "") == "point_t{subimage_x,subimage_y}"
-        conts = [p for c, p in R.find(f["body"], lambda x: x.get("k") == "Continue")]
-        got = None
-        for c, p in R.find(f["body"], lambda x: x.get("k") == "If"):
+        g = R.canonize(f)           # #0 the tile row origin y, #1 the tile column origin x (loops over the image in tile steps); locals by role
+        facts = ["%s := %s" % (dd["name"], R.key(dd["init"])) for d, _ in R.find(g["body"], lambda x: x.get("k") == "Decl") for dd in d["decls"] if dd.get("name") and dd.get("init") is not None]
+        loops = [l for l in R.loops_of(g["body"]) if l.get("k") == "For"]
+        got, cond_key = None, None
+        for c, p in R.find(g["body"], lambda x: x.get("k") == "If"):
             th = R.strip(c.get("then"))
             if th is not None and R.find(th, lambda x: x.get("k") == "Continue") and not R.find(th, lambda x: x.get("k") == "Call"):
                 got = set()
+
                 def disj(n):
                     n = R.strip(n)
                     while n.get("k") == "Paren":
                         n = R.strip(n["e"])
                     if n.get("k") == "Binary" and n.get("op") == "||":
-                        disj(n["l"]); disj(n["r"])
+                        disj(n["l"])
+                        disj(n["r"])
                     elif n.get("k") == "Binary":
                         got.add(R.norm_cmp(n["op"], R.key(n["l"]), R.key(n["r"])))
                     else:
                         got.add(("?", R.key(n), ""))
                 disj(c["cond"])
-        want = {R.norm_cmp(">", "tile_top_left.x", "view_lower_right.x"), R.norm_cmp(">", "tile_top_left.y", "view_lower_right.y"),
-                R.norm_cmp("<", "tile_lower_right.x", "view_top_left.x"), R.norm_cmp("<", "tile_lower_right.y", "view_top_left.y")}
+        TL = "point_t{#1,#0}"
+        env = R.bind(facts, ["{X} := _settings._top_left.x", "{Y} := _settings._top_left.y", "{M} := _settings._dim.x", "{N} := _settings._dim.y",
+                             "{P} := _info._width", "{Q} := _info._height",
+                             "{A} := point_t{((#1 + {W}) - 1),((#0 + {H}) - 1)}", "{B} := point_t{{X},{Y}}", "{C} := point_t{(({X} + {M}) - 1),(({Y} + {N}) - 1)}"])
         key = "S8b:tiff:read_tiled_data_subimage:overlap test"
-        if not incl or got is None:
-            rep.fail_analysis("S8b: corner definitions or the skip test of read_tiled_data_subimage have an unrecognised shape (%s / %s)" % (lr_t, lr_v))
-        elif got == want:
-            rep.ok("S8b-tile-overlap", key, sorted(map(str, got)))
+        shape_ok = env is not None and len(loops) >= 2 and R.for_shape(loops[0])[:3] == ("#0", "0", "(#0 < %s)" % env["Q"]) and R.for_shape(loops[1])[:3] == ("#1", "0", "(#1 < %s)" % env["P"])
+        if not shape_ok or got is None:
+            rep.fail_analysis("S8b: corner definitions, tile loops or the skip test of read_tiled_data_subimage have an unrecognised shape (%s)" % [x for x in facts if "point_t" in x][:4])
         else:
-            rep.violation("S8b-tile-overlap", key, R.fn_where(f), {"skip_condition": sorted(map(str, got)), "disjointness_of_inclusive_rectangles": sorted(map(str, want)),
-                                                                   "problem": "a tile that shares exactly one row/column with the requested rectangle is skipped (or a disjoint one processed): the sub-rectangle read differs from the crop of the full read"})
+            fi = lambda t: R.fill_in(t, env)
+            named = [x.split(" := ")[0] for x in facts if x.endswith(":= " + TL) and not x.startswith("=")]
+            tl = named[0] if named else TL
+            want = {R.norm_cmp(">", tl + ".x", fi("{C}.x")), R.norm_cmp(">", tl + ".y", fi("{C}.y")),
+                    R.norm_cmp("<", fi("{A}.x"), fi("{B}.x")), R.norm_cmp("<", fi("{A}.y"), fi("{B}.y"))}
+            if got == want:
+                rep.ok("S8b-tile-overlap", key, sorted(map(str, got)))
+            else:
+                rep.violation("S8b-tile-overlap", key, R.fn_where(f), {"skip_condition": sorted(map(str, got)), "disjointness_of_inclusive_rectangles": sorted(map(str, want)), "roles": env,
+                                                                       "problem": "a tile that shares exactly one row/column with the requested rectangle is skipped (or a disjoint one processed): the sub-rectangle read differs from the crop of the full read"})
     rep.floor("obligations:S8b", 1)
 
 
@@ -512,21 +515,31 @@ def bmp_rle_subrect(rep, fns):
             done.add("rle")
             rep.count("obligations:S10")
             prob = []
-            bufs = [dd for d, _ in R.find(f["body"], lambda x: x.get("k") == "Decl") for dd in d["decls"] if dd.get("name") == "buf"]
-            if len(bufs) != 1 or R.strip(bufs[0]["init"]).get("k") != "Construct":
-                prob.append("decode buffer declaration not recognised")
+            g = R.canonize(f)       # locals by role: the decode buffer is what copy_row_if_needed receives, the row range is the pair of
+            #                         locals that take the two orientations' first row and one-past-last row
+            cr = [c for c, _ in R.calls_in(g["body"], lambda n: n.endswith("::copy_row_if_needed"))]
+            bname = {R.key(c["args"][0]) for c in cr}
+            bufs = [dd for d, _ in R.find(g["body"], lambda x: x.get("k") == "Decl") for dd in d["decls"] if dd.get("name") in bname]
+            if len(bname) != 1 or len(bufs) != 1 or bufs[0].get("init") is None or R.strip(bufs[0]["init"]).get("k") != "Construct":
+                prob.append("decode buffer declaration not recognised (the first argument of copy_row_if_needed: %s)" % sorted(bname))
             else:
                 sz = P(R.strip(bufs[0]["init"])["args"][0])
                 if sz != A("_info._width"):
                     prob.append("the decode buffer has %r elements, the run-length data addresses rows of _info._width pixels" % sz)
-            asg = {}
-            for a, _ in R.find(f["body"], lambda x: x.get("k") == "Assign"):
-                asg.setdefault(R.key(a["l"]), []).append(P(a["r"]))
-            dcl = {dd["name"]: P(dd["init"]) for d, _ in R.find(f["body"], lambda x: x.get("k") == "Decl") for dd in d["decls"] if dd.get("name") in ("ybeg", "yend") and dd.get("init") is not None}
-            yb = [dcl.get("ybeg")] + asg.get("ybeg", [])
-            ye = [dcl.get("yend")] + asg.get("yend", [])
-            if set(map(repr, yb)) != {repr(Poly.const(0)), repr(A("_info._height") - Poly.const(1))} or set(map(repr, ye)) != {repr(A("_info._height")), repr(Poly.const(-1))}:
-                prob.append("row counter runs over ybeg in %s, yend in %s instead of the image height" % ([repr(x) for x in yb], [repr(x) for x in ye]))
+            vals = {}
+            for d, _ in R.find(g["body"], lambda x: x.get("k") == "Decl"):
+                for dd in d["decls"]:
+                    if dd.get("name", "").startswith("%") and dd.get("init") is not None:
+                        vals.setdefault(dd["name"], []).append(repr(P(dd["init"])))
+            for a, _ in R.find(g["body"], lambda x: x.get("k") == "Assign"):
+                k = R.key(a["l"])
+                if k in vals:
+                    vals[k].append(repr(P(a["r"])))
+            first = {repr(Poly.const(0)), repr(A("_info._height") - Poly.const(1))}
+            last = {repr(A("_info._height")), repr(Poly.const(-1))}
+            two = {k: v for k, v in vals.items() if len(v) == 2}
+            if not (any(set(v) == first for v in two.values()) and any(set(v) == last for v in two.values())):
+                prob.append("row counter: no pair of locals runs from {0, height-1} to {height, -1}; two-valued locals are %s" % sorted((k, v) for k, v in two.items()))
             if prob:
                 rep.violation("S10-rle-subrect", "S10:bmp:read_palette_image_rle", R.fn_where(f), {"problems": prob})
             else:
